@@ -333,7 +333,10 @@ ODD_LEVEL_NAMES = ['a//b', '/a', 'a/', '.', '..', 'a/../b', 'a/./b',
                    'a/b/', '../x', 'Work/', 'Work//', '/Work', 'Sent//x',
                    'Work/Sent/', './x', 'x/.', 'x/..']
 UNI_NAMES = ['é', 'ü/中', '中文', '\U0001f600', 'a/\U00010348', 'é&é',
-             '&AOk-', '\u202ex', 'x\ufeff', 'é/é/é/é']
+             '&AOk-', '\u202ex', 'x\ufeff', 'é/é/é/é',
+             # lone surrogates: the high one no file name can hold, the low
+             # one (U+DC80-DCFF) os.fsencode() takes
+             'x\udc80y', '\udcff', 's\ud800']
 
 
 def fresh_name(rng: random.Random, backend: str) -> str:
